@@ -248,6 +248,8 @@ class TU:
                 ln[0] += 1
             elif t == "bcomment":
                 ln[0] += it[1] + 2
+            elif t == "raw":
+                raise InvalidWorld("raw item cannot be modelled")
             elif t == "cond":
                 taken = False
                 for kind, e, body in it[1]:
